@@ -174,8 +174,10 @@ def run(ctx):
         "the registry's walk looks at ALL fields of a struct type, exported or not, embedded or not (the field's own name included, "
         "e.g. an embedded `loginSecure` or a private `keyCache` needs a tag): modelled as is; exercised by generated unexported fields "
         "(reflect.StructOf with PkgPath) and by the hand-declared types of harness/cmd/c17/reg.go",
-        "the registry follows struct fields and pointers only: a secret-looking untagged field below a slice, map, array or interface "
-        "is accepted by Register (modelled as is; reported as an observation, see DESIGN C17)",
+        "the registry follows struct fields, pointers, slices, arrays and maps (keys and elements) since 3e0a32d (modelled: Registry.reach); "
+        "an interface has no static fields",
+        "a secure tag on an embedded field of unexported type makes every promoted field secret (since ea18f48; SecureSpec.promoted, "
+        "SA_embed_tagged); exercised by the hand-declared EmbTagged / EmbDeep / EmbNil / EmbIgn / TagHolder types on all three surfaces",
         "HTML escaping, html/template and the JSON encoders are not modelled: rendered files are byte-searched",
         "embedded NON-struct values of unexported named types (type tokens []string; struct{ tokens }) are not entered by the code nor "
         "serialised by the encoders: treated as ordinary unexported fields",
